@@ -630,6 +630,13 @@ func ToEntry(n Node) (e *Entry) {
 		return TSUnset, nil
 	}
 
+	// Keep track of the groupings being converted, to detect a grouping that
+	// (directly or through other groupings) uses itself.
+	if g, ok := n.(*Grouping); ok {
+		ms.usesInProgress = append(ms.usesInProgress, g)
+		defer func() { ms.usesInProgress = ms.usesInProgress[:len(ms.usesInProgress)-1] }()
+	}
+
 	var err error
 	// Handle non-directory nodes (leaf, leafref, and oddly enough, uses).
 	switch s := n.(type) {
@@ -700,8 +707,6 @@ func ToEntry(n Node) (e *Entry) {
 				return usesCycleError(ms.usesInProgress[i:])
 			}
 		}
-		ms.usesInProgress = append(ms.usesInProgress, g)
-		defer func() { ms.usesInProgress = ms.usesInProgress[:len(ms.usesInProgress)-1] }()
 		// We need to return a duplicate so we resolve properly
 		// when the group is used in multiple locations and the
 		// grouping has a leafref that references outside the group.
